@@ -439,4 +439,15 @@ example : InFootprint exGeom 4 (-29 / 10) (101 / 10) := by
   rw [h1, h2]
   norm_num [exGeom]
 
+/-- the inside / outside theorems applied to that grid: the point above goes to cell 4, the strip point to -1 -/
+example : coord2cell exGeom (-29 / 10) (101 / 10) = 4 ∧ coord2cell exGeom (-15 / 4) (41 / 4) = -1 := by
+  have hcsz : (0 : ℚ) < exGeom.csz := by norm_num [exGeom]
+  refine ⟨coord2cell_inside hcsz (by decide) (by decide) ?_, coord2cell_outside hcsz (Or.inl ?_)⟩
+  · have h1 : colOf exGeom.ncols 4 = 1 := by decide
+    have h2 : rowUp exGeom 4 = 0 := by decide
+    unfold InFootprint cellLeft cellRight cellBottom cellTop
+    rw [h1, h2]
+    norm_num [exGeom]
+  · norm_num [exGeom]
+
 end HydroVerif.C07
